@@ -32,7 +32,7 @@ LEVEL_NOTE = ('Trusted: the reference split (vlib/checks/c19.py ref_split_path) 
 SEGS = ['a', '', 'b.c', 'd e']
 # text the error path may treat differently from the success path: non-ASCII, a lone
 # surrogate (what os.fsdecode gives for an undecodable byte), percent and quote signs
-SEGS_X = ['caf\u00e9', '\udce9x', '100%', 'q"\'']
+SEGS_X = ['caf\u00e9', '\udce9x', '100%', 'q"\'', 'a%2Fb', '%41', 'x%20y%', '%2e%2e']
 ITEMS = ['a', 'a b', 'a,b', 'a"b', 'a\\b', '', ' a', 'x, ', '"', 'ab\\', 'k=v', "it's",
          "'a'", "'a", "b'"]
 
@@ -166,6 +166,12 @@ def run(ctx):
     for n in (1, 2, 3) + ((4,) if ctx.thorough else ()):
         lists += list(itertools.product(ITEMS if n < 4 else ITEMS[:8], repeat=n))
     E.run(rep, 'split_by_commas', [lists], _list_case)
+    # long lists (every item plain / every item quoted / alternating)
+    longs = []
+    for n in (50, 111, 112, 500, 2000):
+        longs += [(tuple('i%d' % i for i in range(n)),), (tuple('a b%d' % i for i in range(n)),),
+                  (tuple(('x,%d' % i) if i % 2 else 'y%d' % i for i in range(n)),)]
+    E.run(rep, 'split_by_commas-long', [[x[0] for x in longs]], _list_case)
     from oslo_utils import strutils
     for bad in MALFORMED:
         rep.count('evaluations')
